@@ -10,7 +10,7 @@ from io import BytesIO
 from hypothesis import strategies as st
 
 from checks import c05
-from vlib import build, chunktools, refcodec, snapshot, specmodel
+from vlib import iovariants, build, chunktools, refcodec, snapshot, specmodel
 from vlib.harness import REPO, PropertyViolation, run_property
 
 PROPERTY_ID = "C04"
@@ -196,6 +196,8 @@ def run_encoded(ctx, case):
             "independently encoded %s loads differently (description vs library): %s" % (case["kind"], "; ".join("%s: %r vs %r" % x for x in d[:4])),
             key="C04.encoded.decoding:" + "/".join(segs[:4]),
         )
+    # the same foreign file read from disk (str path / pathlib.Path) decodes the same
+    iovariants.loaders_agree(data, got, snapshot.snap, "C04", ".sunvox" if case["kind"] == "project" else ".sunsynth")
     if case["kind"] == "project":
         ver = tuple(loaded.loaded_sunvox_version)
         if list(ver) != list(case["var"]["vers"]):
